@@ -117,7 +117,11 @@ class Program(object):
             return ListArgument(
                 name,
                 [
-                    resolve_list(name, n) if isinstance(n.value, list) else n.value
+                    resolve_list(name, n)
+                    if isinstance(n.value, list)
+                    else {k: v.value for k, v in n.value.items()}
+                    if isinstance(n.value, dict)
+                    else n.value
                     for n in expression_node.value
                 ],
                 lineno=expression_node.lineno,
